@@ -311,6 +311,9 @@ struct Exec<'a> {
     handles: Vec<Option<H>>,
     how: Vec<(How, bool)>,
     writes: Vec<usize>,
+    /// the last persist of the slot handed back proof (an open file) that the tempfile was really renamed; without it
+    /// `persist()`/`commit()` also succeed when an earlier handler run took the tempfile away (documented)
+    persist_verified: Vec<bool>,
     marker_between_ops: bool,
 }
 
@@ -322,6 +325,7 @@ impl<'a> Exec<'a> {
             handles: (0..NSLOTS).map(|_| None).collect(),
             how: vec![(How::New, false); NSLOTS],
             writes: vec![0; NSLOTS],
+            persist_verified: vec![false; NSLOTS],
             marker_between_ops,
         }
     }
@@ -387,14 +391,17 @@ impl<'a> Exec<'a> {
                     let target = persist_target(&self.root, slot, how, nested);
                     j.set_state(slot, ST_PERSISTING);
                     let r = match self.handles[slot].take() {
-                        Some(H::W(h)) => h.persist(&target).map(|_| ()).map_err(|e| e.error.to_string()),
-                        Some(H::C(h)) => h.persist(&target).map_err(|e| e.error.to_string()),
-                        Some(H::LF(f)) => f.commit().map(|_| ()).map_err(|e| e.error.to_string()),
-                        Some(H::LM(m)) => m.commit().map(|_| ()).map_err(|e| e.error.to_string()),
+                        Some(H::W(h)) => h.persist(&target).map(|f| f.is_some()).map_err(|e| e.error.to_string()),
+                        Some(H::C(h)) => h.persist(&target).map(|_| false).map_err(|e| e.error.to_string()),
+                        Some(H::LF(f)) => f.commit().map(|(_, f)| f.is_some()).map_err(|e| e.error.to_string()),
+                        Some(H::LM(m)) => m.commit().map(|_| false).map_err(|e| e.error.to_string()),
                         _ => Err("persist on a missing handle".into()),
                     };
                     match r {
-                        Ok(()) => j.set_state(slot, ST_PERSISTED),
+                        Ok(verified) => {
+                            self.persist_verified[slot] = verified;
+                            j.set_state(slot, ST_PERSISTED)
+                        }
                         Err(e) => {
                             j.set_state(slot, ST_ERROR);
                             return Err(format!("persist: {e}"));
@@ -1020,7 +1027,13 @@ fn storm_worker(root: &Path, t: &mut Tape) -> ! {
                         Ok(()) => match *op {
                             Op::Persist { slot } => {
                                 let (how, nested) = ex.how[slot];
-                                persisted.lock().unwrap().push(persist_target(&round_root, slot, how, nested));
+                                let target = persist_target(&round_root, slot, how, nested);
+                                if ex.persist_verified[slot] {
+                                    persisted.lock().unwrap().push(target);
+                                } else {
+                                    // a closed handle cannot tell whether a handler took the tempfile before: exempt
+                                    taken.lock().unwrap().push(target);
+                                }
                             }
                             Op::Take { slot } => {
                                 // the taken file is removed by its own destructor at the end of the round or stays: exempt
@@ -1112,6 +1125,33 @@ fn all_threads_sleeping(pid: u32) -> Option<bool> {
     Some(any)
 }
 
+/// user-space backtraces of all threads (gdb), empty when gdb is not available
+fn backtraces(pid: u32) -> String {
+    let out = std::process::Command::new("timeout")
+        .args(["120", "gdb", "-p", &pid.to_string(), "-batch", "-ex", "thread apply all bt 40"])
+        .stdin(std::process::Stdio::null())
+        .stderr(std::process::Stdio::null())
+        .output();
+    match out {
+        Ok(o) => String::from_utf8_lossy(&o.stdout).to_string(),
+        Err(_) => String::new(),
+    }
+}
+
+fn excerpt(bt: &str) -> String {
+    let keep: Vec<&str> = bt
+        .lines()
+        .filter(|l| l.starts_with("Thread ") || l.starts_with('#'))
+        .map(|l| l.trim_end())
+        .take(60)
+        .collect();
+    if keep.is_empty() {
+        "(no backtrace: gdb unavailable)".into()
+    } else {
+        keep.join("\n")
+    }
+}
+
 fn run_storm(t: &mut Tape, c: &mut Case) {
     let mut t2 = Tape::new(t.rest());
     let plan = gen_storm(&mut t2);
@@ -1142,6 +1182,7 @@ fn run_storm(t: &mut Tape, c: &mut Case) {
     infra!(c, std::fs::write(&journal, vec![0u8; JOURNAL_BYTES]), "journal");
     let mut child = infra!(c, worker_cmd("storm", &root, &journal, &tape, None).and_then(|mut cmd| cmd.spawn()), "spawn worker");
     let start = Instant::now();
+    let mut next_probe = Duration::from_secs(30);
     let status = loop {
         match child.try_wait() {
             Ok(Some(st)) => break st,
@@ -1151,7 +1192,8 @@ fn run_storm(t: &mut Tape, c: &mut Case) {
                 return;
             }
         }
-        if start.elapsed() > Duration::from_secs(90) {
+        let waited = start.elapsed();
+        if waited > next_probe {
             // a worker that is blocked for good (every thread asleep, repeatedly) is a deadlock; one that still runs is starved
             let mut asleep = 0;
             for _ in 0..5 {
@@ -1160,17 +1202,31 @@ fn run_storm(t: &mut Tape, c: &mut Case) {
                 }
                 std::thread::sleep(Duration::from_millis(200));
             }
-            let _ = child.kill();
-            let _ = child.wait();
             if asleep == 5 {
+                let bt = backtraces(child.id());
+                let _ = child.kill();
+                let _ = child.wait();
+                // the one deadlock known on the pinned tree: the handler unlocks a registry shard another thread waits for,
+                // dashmap's slow unlock path enters parking_lot_core, which allocates, while the interrupted thread is inside malloc
+                let known = bt.contains("cleanup_tempfiles_signal_safe") && bt.contains("unlock_exclusive_slow");
+                let sig = if known { "deadlock-handler-unlock-slow-path-allocates" } else { "deadlock-under-signals" };
                 c.fail_sig(
-                    "deadlock-under-signals",
-                    format!("the worker stopped making progress while handling termination signals (all threads asleep for good after 90 s); plan {plan:?}"),
+                    sig,
+                    format!(
+                        "the worker stopped making progress while handling termination signals (all threads asleep for good after {} s); blocked threads:\n{}\nplan {plan:?}",
+                        waited.as_secs(),
+                        excerpt(&bt)
+                    ),
                 );
-            } else {
-                c.infra("storm worker exceeded 90 s while still running".to_string());
+                return;
             }
-            return;
+            if waited > Duration::from_secs(180) {
+                let _ = child.kill();
+                let _ = child.wait();
+                c.infra("storm worker exceeded 180 s while still running".to_string());
+                return;
+            }
+            next_probe = waited + Duration::from_secs(15);
         }
         std::thread::sleep(Duration::from_millis(2));
     };
@@ -1226,9 +1282,9 @@ pub fn main() {
     ck.rule("signal-at-syscall: scripts of 4..14 operations (new / writable_at / mark_at / gix-lock File and Marker, optionally in nested directories with cleanup boundary; write, close, persist/commit, take, drop) over up to 12 tempfiles in a single-threaded worker with the handler installed in mode DeleteTempfilesOnTerminationAndRestoreDefaultBehaviour; EVERY syscall the worker makes between the start and the end of the script (and a getppid() between any two operations) is a delivery point for SIGTERM/SIGINT/SIGQUIT in rotation: one worker run per point. Non-trivial: a script with a delivery point at which >= 2 tempfiles are registered and >= 1 is idle; distinct by hash of the decoded script. fork-ownership: prefix + fork + parent/child scripts, signal to parent or child; non-trivial: both processes hold an idle tempfile. signal-storm: 1..3 threads x 3..8 rounds of such scripts under 20..400 handled signals; non-trivial: >= 10 signals and >= 20 operations.");
     ck.assume("strace delivers the injected signal when the k-th invocation of the named syscall returns (checked by hand: the syscall is executed, the handler runs before the next instruction of the worker); its invocation counters are per syscall name, so a delivery point is (name, ordinal) taken from a counting pass of the same deterministic worker");
     ck.assume("tempfiles that are inside an API call when the handler runs (journal: creating / in-call / persisting / dropping) are exempt, as documented in the crate's 'Limitations'; so are files handed out by take()");
-    ck.assume("signal-storm judges only the state after the last signal, which is raised when no other thread runs: while other threads mutate the registry the handler may skip a shard it cannot lock (documented), which is not observable from outside; a worker whose threads are all asleep 90 s after start is a deadlock, a worker still running then is inconclusive");
+    ck.assume("signal-storm judges only the state after the last signal, which is raised when no other thread runs: while other threads mutate the registry the handler may skip a shard it cannot lock (documented), which is not observable from outside; a worker whose threads are all asleep (5 samples of /proc/<pid>/task/*/stat) 30 s or more after its start is a deadlock, classified by a gdb backtrace when gdb is installed; a worker still running after 180 s is inconclusive");
 
-    ck.sub("signal-at-syscall", SubCfg::new(60, 1500).max_len(72).max_shrink(12), run_signal_at_syscall);
+    ck.sub("signal-at-syscall", SubCfg::new(80, 2000).max_len(72).max_shrink(12), run_signal_at_syscall);
     let total = POINTS_TOTAL.load(SeqCst);
     if total > 0 {
         let by: Vec<String> = POINTS_BY_SYSCALL.lock().unwrap().iter().map(|(k, v)| format!("{k}:{v}")).collect();
